@@ -7,6 +7,7 @@ import (
 	"strings"
 	"time"
 
+	"github.com/bitcoin-sv/block-headers-service/domains"
 	"github.com/bitcoin-sv/block-headers-service/verifharness/deco"
 
 	"github.com/bitcoin-sv/block-headers-service/verifharness/ev"
@@ -80,7 +81,7 @@ func fieldSig(n *refmodel.Node) string {
 var fault struct{ armed, fired bool }
 
 func body(r *ev.Run) {
-	r.Rule("seeded random histories with field extremes (int32 version corners and random, uint32 nonce/bits corners and random, timestamps over the whole uint32 epoch range, random 32-byte merkle roots and parents) incl. forks, orphans, late parents, reorganisations, duplicates; half of the headers delivered as bytes of a `headers` message through the real wire decoder (as the sync engines receive them), half through Chains.Add directly; restarts (close + database.Init) at seeded points and at the end; a fifth of the histories in a non-UTC process time zone; in half of the histories one submission in 15 or 40 has its INSERT fail at the repository seam (the header is not stored; its child typically follows at once; in half of these the header is delivered again after the next one) - after a failed INSERT the chain-state label is left out of the comparison for the rest of that history. Plus stores of 501..1600 longest-chain headers (side branches included) exported and imported by the real start-up path (prepared_db), compared row by row with the model, extended by ingestion and restarted. After every submission: full-table comparison with independently computed hash/height/work/cumulative work/fields, immutability monitor (every column but header_state byte-identical, no row vanishes), round trip of the new header through Headers.GetHeaderByHash and GET /chain/header/{hash}, /chain/header/state/{hash}. distinct = distinct (version class, time class, nonce class, bits class, parent relation) cells of stored headers; non-trivial = all of them (each cell is a distinct field-corner combination).")
+	r.Rule("seeded random histories with field extremes (int32 version corners and random, uint32 nonce/bits corners and random, timestamps over the whole uint32 epoch range, random 32-byte merkle roots and parents) incl. forks, orphans, late parents, reorganisations, duplicates; half of the headers delivered as bytes of a `headers` message through the real wire decoder (as the sync engines receive them), half through Chains.Add directly; restarts (close + database.Init) at seeded points and at the end; a fifth of the histories in a non-UTC process time zone; in half of the histories one submission in 15 or 40 has its INSERT fail at the repository seam (the header is not stored; its child typically follows at once; in half of these the header is delivered again after the next one) - after a failed INSERT the chain-state label is left out of the comparison for the rest of that history. Plus stores of 501..1600 longest-chain headers (side branches included) exported and imported by the real start-up path (prepared_db), compared row by row with the model, extended by ingestion and restarted. After every submission: full-table comparison with independently computed hash/height/work/cumulative work/fields, immutability monitor (every column but header_state byte-identical, no row vanishes), round trip of the new header through Headers.GetHeaderByHash, of its parent through FindPreviousHeader, of its ancestors through GetHeaderAncestorsByHash(…, genesis) (every field incl. work and cumulative work) and GET /chain/header/{hash}, /chain/header/state/{hash}. distinct = distinct (version class, time class, nonce class, bits class, parent relation) cells of stored headers; non-trivial = all of them (each cell is a distinct field-corner combination).")
 	r.Assume("reference arithmetic in refmodel (cross-checked exhaustively by C19)", "SQLite only")
 	r.Require("restarts", 5)
 	r.Require("headers_stored", 500)
@@ -144,6 +145,34 @@ func body(r *ev.Run) {
 
 // failNow: 0 = no fault for this submission; 1 = its INSERT fails; 2 = its INSERT fails and the header is delivered again
 // after the next one (so that its child, if that is what follows, arrives first).
+// eqHeader names the first field in which a header handed out by the service differs from the model node ("" = none; the
+// chain-state label is not compared).
+func eqHeader(g *domains.BlockHeader, n *refmodel.Node) string {
+	switch {
+	case g.Hash.String() != n.Hash.String():
+		return "hash"
+	case g.Version != n.Version:
+		return "version"
+	case g.PreviousBlock.String() != n.Prev.String():
+		return "previous-block"
+	case g.MerkleRoot.String() != n.Merkle.String():
+		return "merkle-root"
+	case g.Timestamp.Unix() != int64(n.Time) || g.Timestamp.Nanosecond() != 0:
+		return "timestamp"
+	case g.Bits != n.Bits:
+		return "bits"
+	case g.Nonce != n.Nonce:
+		return "nonce"
+	case g.Height != n.Height:
+		return "height"
+	case g.Chainwork == nil || g.Chainwork.String() != n.Work.String():
+		return "chainwork"
+	case g.CumulatedWork == nil || g.CumulatedWork.String() != n.Cum.String():
+		return "cumulated-work"
+	}
+	return ""
+}
+
 func runHistory(r *ev.Run, st *rig.Stack, caseID string, hist gen.History, httpAll bool, restartNow func() bool, failNow func() int) {
 	if err := st.Reset(); err != nil {
 		r.Violate("harness|reset", err.Error(), caseID, nil)
@@ -309,6 +338,41 @@ func runHistory(r *ev.Run, st *rig.Stack, caseID string, hist gen.History, httpA
 			g.Chainwork.String() != n.Work.String() || g.CumulatedWork.String() != n.Cum.String() || string(g.State) != n.State {
 			r.Violate("service-roundtrip|field", fmt.Sprintf("GetHeaderByHash returned %+v, expected node %s h=%d v=%d t=%d bits=%d nonce=%d", g, n.Hash, n.Height, n.Version, n.Time, n.Bits, n.Nonce), caseID, detail(i))
 			return
+		}
+		// the same header as other read paths hand it out: as the previous header of its children, and on an ancestors path
+		if n.Parent != nil {
+			if p := st.Svc.Headers.FindPreviousHeader(n.Hash.String()); p == nil {
+				r.Violate("previous-header|not-found", fmt.Sprintf("FindPreviousHeader(%s) returned nothing although the parent %s is stored", n.Hash, n.Parent.Hash), caseID, detail(i))
+				return
+			} else if bad := eqHeader(p, n.Parent); bad != "" {
+				r.Violate("previous-header|field|"+bad, fmt.Sprintf("FindPreviousHeader(%s) returned the parent with a wrong %s: %+v", n.Hash, bad, p), caseID, detail(i))
+				return
+			}
+			r.Count("previous_header_reads", 1)
+		}
+		if n.Connected && n.Height >= 2 && i%4 == 0 {
+			anc, err := st.Svc.Headers.GetHeaderAncestorsByHash(n.Hash.String(), m.Genesis.Hash.String())
+			if err == nil {
+				for _, a := range anc {
+					if a == nil {
+						continue
+					}
+					an := m.Nodes[refmodel.Hash(a.Hash)]
+					if an == nil {
+						continue // C04 decides which headers belong on the path
+					}
+					if len(failedAt) > 0 {
+						an2 := *an
+						an2.State = string(a.State)
+						an = &an2
+					}
+					if bad := eqHeader(a, an); bad != "" {
+						r.Violate("ancestors-path|field|"+bad, fmt.Sprintf("GetHeaderAncestorsByHash(%s, genesis) returned %s with a wrong %s: %+v", n.Hash, an.Hash, bad, a), caseID, detail(i))
+						return
+					}
+				}
+				r.Count("ancestor_path_reads", 1)
+			}
 		}
 		// HTTP round trip
 		if httpAll || i%7 == 0 {
